@@ -43,9 +43,9 @@ PATTERNS = [
     (re.compile(r"^Time point (-?\d+) is out of bounds"), lambda m, c: ["timeOutOfBounds", int(m.group(1))]),
     (re.compile(r"^Missing seg_id (-?\d+) at time (-?\d+)$"), lambda m, c: ["missingLabel", int(m.group(1)), int(m.group(2))]),
     (re.compile(r"^Coordinate list must have the same length as the list of seg_ids to test\.$"), lambda m, c: ["lengthMismatch"]),
-    (re.compile(r"^Coords (.*) do not have one value per dimension of the segmentation"),
+    (re.compile(r"^Coords (.*) do not have one value per dimension of the segmentation", re.S),
      lambda m, c: ["coordLength", coord_index(m.group(1), c)]),
-    (re.compile(r"^Coords (.*) are out of bounds for segmentation data with shape"),
+    (re.compile(r"^Coords (.*) are out of bounds for segmentation data with shape", re.S),
      lambda m, c: ["coordOutOfBounds", coord_index(m.group(1), c)]),
 ]
 
@@ -214,7 +214,9 @@ class Args:
         self.ids = conv_ints(case["ids"], fl.get("ids")) if "ids" in case else None
         self.tps = conv_ints(case["tps"], fl.get("tps")) if "tps" in case else None
         self.md = mk_metadata(case.get("axes")) if "axes" in case else None
-        self.geff = {"metadata": self.md}
+        # an InMemoryGeff always carries metadata; "nometa" only means the optional `metadata` argument
+        # of has_seg_ids_at_time_points is not given
+        self.geff = {"metadata": self.md if self.md is not None else mk_metadata(None)}
         self.objs = {"segmentation": self.seg, "scale": self.scale, "coords": self.coords, "seg_ids": self.ids,
                      "time_points": self.tps, "metadata": self.md}
 
@@ -267,28 +269,24 @@ def run_calls(case):
     out, extra = [], []
     first = {}
     for n, kind in enumerate(kinds):
-        eff = args.effective(kind)               # (re-read from the objects: a modification shows here too)
+        eff_now = args.effective(kind)
         before = {k: snap(v) for k, v in args.objs.items()}
-        im = args.invoke(kind, eff)
+        im = args.invoke(kind, eff_now)
         after = {k: snap(v) for k, v in args.objs.items()}
         changed = [k for k in before if before[k] != after[k]]
         if changed:
             extra.append(("C19:function-modifies-argument",
                           f"call {n} ({kind}) modified its argument(s) {changed}", changed, "arguments unchanged"))
-        if n == 0 or kind not in first:
-            eff0 = eff
-        # the verdict every call is judged by is the one for the ORIGINAL arguments
         if kind not in first:
-            first[kind] = (eff, im)
-            exp = oracle(eff)
+            first[kind] = (eff_now, im)
+            eff_ref = eff_now
         else:
-            eff0, im0 = first[kind]
-            exp = oracle(eff0)
+            # every call is judged by the verdict for the arguments as first handed to this function
+            eff_ref, im0 = first[kind]
             if im != im0:
                 extra.append(("C19:history-dependent-verdict",
                               f"call {n} ({kind}) with the same argument objects returned {im} after {im0}", im, im0))
-            eff = eff0
-        out.append((kind, {k: v for k, v in eff.items() if k != "coord_strs"}, im, exp))
+        out.append((kind, {k: v for k, v in eff_ref.items() if k != "coord_strs"}, im, oracle(eff_ref)))
     return {"calls": out, "extra": extra}
 
 
@@ -645,6 +643,85 @@ def gen_random(rng, n):
             yield {"kind": "in_bounds", "axes": rng.choice([axes, axes, axes, None, []]), "seg_shape": shape, "scale": scale}
 
 
+INT_DTYPES = ["int8", "int16", "int32", "int64", "uint8", "uint16", "uint32", "uint64"]
+COORDS_FL = ["list_of_tuples", "f64_2d", "f32_2d", "i64_2d", "f64_2d_ro", "tuple_of_arrays"]
+IDS_FL = ["np_scalars", "array", "tuple", "array_ro", "array:int16", "array:uint64"]
+TPS_FL = ["tuple", "array", "np_scalars", "array_ro", "array:int8"]
+SCALE_FL = ["tuple", "array_f64", "array_f64_ro", "array_i64"]
+
+
+def flavour(k):
+    return {"coords": COORDS_FL[k % 6], "ids": IDS_FL[(k // 2) % 6], "tps": TPS_FL[(k // 3) % 5],
+            "scale": SCALE_FL[k % 4], "seg": "ro" if k % 3 == 0 else None}
+
+
+def gen_narrow():
+    """label volumes of every integer dtype (and bool), seg ids / expected labels outside the dtype's
+    range and congruent to present labels modulo 2^8, 2^16, 2^32, 2^64"""
+    k = 0
+    shape = [2, 1, 2]
+    for dt in ["bool"] + INT_DTYPES:
+        lo, hi = (0, 1) if dt == "bool" else (int(np.iinfo(dt).min), int(np.iinfo(dt).max))
+        flat = [1, hi, lo, min(2, hi)] if dt != "bool" else [1, 0, 0, 1]
+        for p, lab in enumerate(flat):
+            idx = [p // 2, 0, p % 2]
+            cand = {lab, -lab, -1, 0, 2 ** 63, 2 ** 64 - 1, lab + (hi - lo + 1), lab - (hi - lo + 1)}
+            for b in (8, 16, 32, 64):
+                cand |= {lab + 2 ** b, lab - 2 ** b}
+            if dt == "bool":                      # np.bool_ != <int beyond int64> raises inside numpy: not a label volume
+                cand = {c for c in cand if fits(c, "int64")}
+            for ident in sorted(cand):
+                for rep in range(2):
+                    k += 1
+                    fl = {"ids": (["list"] + IDS_FL + [f"array:{dt}" if dt != "bool" else "array"])[k % 8],
+                          "coords": ([None] + COORDS_FL)[k % 7]}
+                    yield {"kind": "time", "shape": shape, "flat": flat, "seg_dtype": dt, "tps": [idx[0]], "ids": [ident],
+                           "axes": "nometa", "flavour": fl}
+                    yield {"kind": "coords", "shape": shape, "flat": flat, "seg_dtype": dt, "coords": [idx], "ids": [ident],
+                           "scale": None, "flavour": fl}
+            # several ids at once, a wrapped one among present ones
+            k += 1
+            yield {"kind": "time", "shape": shape, "flat": flat, "seg_dtype": dt, "tps": [idx[0]] * 3,
+                   "ids": [lab, lab + (hi - lo + 1), lab], "axes": "nometa", "flavour": {"ids": IDS_FL[k % 6]}}
+            yield {"kind": "coords", "shape": shape, "flat": flat, "seg_dtype": dt, "coords": [idx] * 3,
+                   "ids": [lab, lab + (hi - lo + 1), lab], "scale": [1, 1, 1], "flavour": flavour(k)}
+
+
+def flavour_variants(cases, every):
+    """every `every`-th time / coords / in_bounds case again with its arguments in another Python/numpy
+    flavour (tuples, numpy scalars, 1-D and 2-D arrays of several dtypes, read-only arrays)"""
+    k = 0
+    for c in cases:
+        if c["kind"] in ("time", "coords", "in_bounds") and "flavour" not in c:
+            k += 1
+            if k % every == 0:
+                c2 = dict(c)
+                c2["flavour"] = flavour(k // every)
+                yield c2
+
+
+def histories(cases, every):
+    """the same function twice, and different functions in sequence, on the SAME argument objects"""
+    k = 0
+    for c in cases:
+        if c["kind"] not in ("time", "coords") or "calls" in c:
+            continue
+        k += 1
+        if k % every:
+            continue
+        j = k // every
+        h = dict(c)
+        h["kind"] = "history"
+        h["flavour"] = flavour(j) if j % 4 else {"coords": "f64_2d", "scale": SCALE_FL[j % 4], "ids": IDS_FL[j % 6]}
+        if c["kind"] == "coords":
+            h.setdefault("tps", [0 for _ in c["ids"]])
+            h.setdefault("axes", "nometa")
+            h["calls"] = [["coords", "coords"], ["coords", "time", "in_bounds", "coords"], ["coords", "coords", "coords"]][j % 3]
+        else:
+            h["calls"] = [["time", "time"], ["time", "axes_match", "time"]][j % 2]
+        yield h
+
+
 def corpus():
     d = common.VERIF / "harness" / "corpus" / PROP
     for f in sorted(d.glob("*.json")):
@@ -670,6 +747,9 @@ def classify(case, im, exp):
             detail = ":rank-mismatch"
         elif k in ("time", "coords") and not exp["ok"] and exp["errors"] and exp["errors"][-1][0] in ("timeOutOfBounds", "coordOutOfBounds"):
             detail = ":out-of-range"
+        elif k in ("time", "coords") and im["ok"] and any(not in_dtype(i, case.get("seg_dtype", "int64")) for i in case["ids"]):
+            return f"C19:{k}:narrow-dtype-wrap", ("a seg id outside the range of the label volume's dtype "
+                                                  f"({case.get('seg_dtype', 'int64')}) was reported present")
         return f"C19:{k}:{why}{detail}", f"returned {im['ok']} but the documented condition is {exp['ok']}"
     # "out-of-range coordinates or time points give a false result with an explanatory message":
     # the message must be there and must be about an out-of-range item; other wording / ordering
@@ -688,10 +768,20 @@ def classify(case, im, exp):
     return None
 
 
+def in_dtype(v, dt):
+    if dt == "bool":
+        return v in (0, 1)
+    return fits(v, dt)
+
+
 def _work(case):
-    im = impl_obs(case)
-    exp = oracle(case)
-    return im, exp
+    if case["kind"] == "valid":
+        im = impl_obs(case)
+        extra = []
+        if im.pop("modified", False):
+            extra.append(("C19:function-modifies-argument", "has_valid_seg_id modified the property arrays", None, None))
+        return {"calls": [("valid", case, im, oracle(case))], "extra": extra}
+    return run_calls(case)
 
 
 def run(ck: common.Check):
@@ -702,39 +792,72 @@ def run(ck: common.Check):
                "in every position / absent / ambiguous / beyond the rank, time points in {-extent,-1,0,extent-1,extent} singly and in "
                "pairs/triples with present and absent labels [quick: every 2nd rank-3 shape + 3 rank-4; thorough: all 27 + every 4th rank-4] + (coords) [quick: all 27 rank-3 shapes + 3 rank-4; thorough: all 27 + all 81] every pixel tuple in {-1,0,max,max+1}^rank under 4 scale "
                "vectors (dyadic), half-pixel and just-below-zero offsets, malformed lengths + seeded random volumes with dyadic and "
-               "non-dyadic scales; non-trivial = all cases except the empty lists; distinct = distinct canonical JSON")
+               "non-dyadic scales + label volumes of bool and all 8 integer dtypes with seg ids / expected labels at the present "
+               "labels +-2^8, +-2^16, +-2^32, +-2^64, +-(dtype range), negatives, 2^63, 2^64-1 in 8 id flavours + every 3rd "
+               "(thorough: every 2nd) time/coords/in_bounds case again in another argument flavour (tuples, numpy scalars, 1-D and "
+               "2-D float64/float32/int64 arrays, read-only arrays, tuples of arrays) + histories (every 7th, thorough every 3rd "
+               "time/coords case: the same function 2-3 times, and coords/time/in_bounds/axes_match interleaved, on the same "
+               "argument objects, arguments snapshotted around every call); non-trivial = all cases except the empty lists; distinct = distinct canonical JSON")
     cases = list(corpus())
     ck.extra["corpus_cases"] = len(cases)
-    cases += list(gen_valid())
-    cases += list(gen_axes_match())
-    cases += list(gen_in_bounds(ck))
-    cases += list(gen_time(ck))
-    cases += list(gen_coords(ck))
-    cases += list(gen_random(ck.rng, 3000 if ck.quick else 40000))
+    gen = []
+    gen += list(gen_valid())
+    gen += list(gen_axes_match())
+    gen += list(gen_in_bounds(ck))
+    gen += list(gen_time(ck))
+    gen += list(gen_coords(ck))
+    gen += list(gen_random(ck.rng, 3000 if ck.quick else 40000))
+    narrow = list(gen_narrow())
+    variants = list(flavour_variants(gen, 3 if ck.quick else 2))
+    hist = list(histories(gen + narrow, 7 if ck.quick else 3))
+    cases += gen + narrow + variants + hist
+    ck.extra["narrow_dtype_cases"] = len(narrow)
+    ck.extra["flavour_variant_cases"] = len(variants)
+    ck.extra["history_cases"] = len(hist)
     results = common.pmap(_work, cases, chunksize=128)
     drv = ck.driver()
-    answers = drv.ask([model_req(c) for c in cases])
+    reqs, where = [], []
+    for idx, res in enumerate(results):
+        for n, (kind, eff, im, exp) in enumerate(res["calls"]):
+            reqs.append(model_req(eff))
+            where.append((idx, n))
+    answers = drv.ask(reqs)
     if answers is None:
         ck.broken.append({"what": "driver Drivers/C19.lean", "detail": drv.broken})
     n_sens = 0
-    for idx, (c, (im, exp)) in enumerate(zip(cases, results)):
+    fl_hist: dict = {}
+    for idx, (c, res) in enumerate(zip(cases, results)):
+        kind, eff, im, exp = res["calls"][0]
         tag = c["kind"] + ":" + ("exc" if "exc" in im else ("true" if im["ok"] else "false:" + (im["errors"][-1][0] if im["errors"] else "nomsg")))
         ck.case(c, tag, nontrivial=not (c["kind"] in ("time", "coords") and not c.get("tps", c.get("coords"))))
-        if exp.get("sensitive"):
-            n_sens += 1
-        r = classify(c, im, exp)
-        if r is not None:
-            ck.fail(r[0], r[1], c, im, {k: v for k, v in exp.items() if k != "sensitive"})
-        if answers is not None:
-            mo = answers[idx]
+        for a, f in (c.get("flavour") or {}).items():
+            if f:
+                fl_hist[f"{a}:{f}"] = fl_hist.get(f"{a}:{f}", 0) + 1
+        if "seg_dtype" in c:
+            fl_hist["seg_dtype:" + c["seg_dtype"]] = fl_hist.get("seg_dtype:" + c["seg_dtype"], 0) + 1
+        for key, what, observed, expected in res["extra"]:
+            ck.fail(key, what, c, observed, expected)
+        for n, (kind, eff, im, exp) in enumerate(res["calls"]):
+            if exp.get("sensitive"):
+                n_sens += 1
+            r = classify(eff, im, exp)
+            if r is not None:
+                ck.fail(r[0], r[1] + (f" [call {n} of {c['calls']}]" if "calls" in c else ""), c, im,
+                        {k: v for k, v in exp.items() if k != "sensitive"})
+    if answers is not None:
+        for (idx, n), mo in zip(where, answers):
+            c = cases[idx]
+            kind, eff, im, exp = results[idx]["calls"][n]
+            mo = unstr(mo)
             if "err" in mo:
                 ck.corr_broken("C19:driver", c, im, mo)
             elif not exp.get("sensitive"):
                 if mo != im:
-                    ck.corr_broken(f"C19:{c['kind']}", c, im, mo)
+                    ck.corr_broken(f"C19:{kind}", c, im, mo)
                 e2 = {k: v for k, v in exp.items() if k != "sensitive"}
                 if mo != e2:
-                    ck.corr_broken(f"C19:{c['kind']}:model-vs-oracle", c, e2, mo)
+                    ck.corr_broken(f"C19:{kind}:model-vs-oracle", c, e2, mo)
+    ck.extra["argument_flavour_histogram"] = fl_hist
     ck.extra["rounding_sensitive_cases"] = n_sens
     ck.assumptions += [
         "numpy integer indexing / np.take / np.unique are modelled (wrap-around and IndexError included), not verified",
@@ -742,14 +865,27 @@ def run(ck: common.Check):
         "float product c*s is rounded and the rounding changes an index or a comparison (tag rounding-sensitive) the case is "
         "outside the proof and only the exception-freedom and the agreement with a float-arithmetic reading are checked",
         "seg ids, labels and time points are integers; pydantic coerces axis maxima to float",
+        "labels and seg ids are unbounded integers in the model: the dtype of the label volume (every integer dtype and "
+        "bool are exercised, with seg ids outside the dtype's range and congruent to present labels), the Python/numpy "
+        "flavour of the arguments (lists, tuples, numpy scalars, 1-D/2-D arrays of several dtypes, read-only arrays) and "
+        "argument aliasing are below the model and exercised by the correspondence: every call is checked against the "
+        "specification, every argument is snapshotted before and compared after each call, and histories repeat calls on "
+        "the same argument objects",
+        "bool label volumes are called with seg ids inside the int64 range only (np.bool_ != <larger Python int> raises "
+        "OverflowError inside numpy)",
         "the check graph_is_in_seg_bounds looks at axis maxima only (not minima), as documented",
     ]
 
 
 def replay(rp):
     c = rp["case"]
-    im, exp = _work(c)
-    r = classify(c, im, exp)
-    print(json.dumps({"case": c, "impl": im, "documented": exp}, default=str)[:3000])
-    print("REPLAY: property FAILS on this input" if r else "REPLAY: property holds on this input")
-    return 1 if r else 0
+    res = _work(c)
+    bad = [{"key": k, "what": w} for k, w, _, _ in res["extra"]]
+    for n, (kind, eff, im, exp) in enumerate(res["calls"]):
+        r = classify(eff, im, exp)
+        if r:
+            bad.append({"key": r[0], "what": r[1], "call": n})
+    print(json.dumps({"case": c, "calls": [{"kind": k, "impl": im, "documented": exp} for k, _, im, exp in res["calls"]],
+                      "failures": bad}, default=str)[:4000])
+    print("REPLAY: property FAILS on this input" if bad else "REPLAY: property holds on this input")
+    return 1 if bad else 0
